@@ -567,7 +567,18 @@ class TaskScenario(ScenarioData):
                     successors = self._getSuccessors()
                     for successor in successors:
                         succ_start = successor.get("start", self.scenarioIdx)
-                        if succ_start and succ_start < latest_end:
+                        if not succ_start:
+                            continue
+                        # Keep the gap the successor asked for between our end and its start
+                        for dep in successor.get("depends", self.scenarioIdx) or []:
+                            if isinstance(dep, dict) and dep.get("task") is self.property and not dep.get("onstart"):
+                                gapduration = dep.get("gapduration")
+                                if gapduration:
+                                    from datetime import timedelta
+
+                                    succ_start = succ_start - timedelta(hours=self._parse_duration(gapduration))
+                                break
+                        if succ_start < latest_end:
                             latest_end = succ_start
 
                     end_date = latest_end
